@@ -12,28 +12,35 @@ CLAIMS = {
  "C20": ("proof", "Discharged obligations on the real code of pkg/utils/nets and pkg/ipam/floatingip: IPToInt/IntToIP are inverse (byte/shift arithmetic exact, "
          "real encoding/binary bodies inlined), IPRange.Size/Contains, SparseSubnet.Size = number of addresses for sorted ranges not spanning 2^32 (loop invariant over a "
          "recursive count), fipCheck accepts only ranges inside the subnet, sorted, disjoint and unmergeable over the integers, FloatingIPPool.Contains = membership, "
-         "walkIPRanges terminates (measure over the integers). Two genuine defects found by these obligations were repaired (fix: commits).",
-         "JSON layer (encoding/json) and net.ParseIP/IPNet.Contains are assumed (uninterpreted with stated facts); pool-level round trip through JSON is not claimed."),
- "C11": ("proof", "Paging arithmetic of pkg/utils/page proved for all page/size/len in the documented ranges (start/end formulae, clamping of ParsePage/ParseSize). "
-         "The key grammar part (injectivity, decode(encode)) is not yet under contract.", "strconv.Atoi assumed deterministic; sort.Sort not modelled."),
- "C01": ("proof", "Every table-writing method of crdIpam that is under contract preserves the table invariant (entries non-nil, filed under their own IP string, allocated/unallocated disjoint, free entries blank) "
+         "walkIPRanges terminates (measure over the integers), pool decoding rejects a null nodeSubnets entry. Genuine defects found by these obligations were repaired (fix: commits, known_findings.txt).",
+         "JSON layer (encoding/json) and net.ParseIP/IPNet.Contains are assumed (uninterpreted with stated facts); pool-level round trip through JSON and the ensureIPAMConf ordering are not claimed."),
+ "C11": ("proof", "Paging arithmetic of pkg/utils/page proved for all page/size/len in the documented ranges (start/end formulae, clamping of ParsePage/ParseSize); crdIpam.ReleaseIPs and the plugin's releaseIP release exactly the (ip,key) pairs that match. "
+         "The key grammar part (injectivity, decode(encode)) is not under contract.", "strconv.Atoi assumed deterministic; sort.Sort not modelled."),
+ "C01": ("proof", "Every table-writing method of crdIpam preserves the table invariant (entries non-nil, filed under their own IP string, pool and its node-subnet set non-nil, allocated/unallocated disjoint, free entries blank) "
          "and has a whole-view postcondition: owner changes only for an IP that was free or whose key equals the key argument; failure leaves tables unchanged. "
-         "Methods: Release, UpdateAttr, AllocateSpecificIP, AllocateInSubnet, AllocateInSubnetWithKey, ReserveIP, handleFIPAssign/Unassign.",
-         "Store wrappers (create/update/delete) are assumed: create fails if the object exists. Interleavings at API-call granularity, histories and restarts are not decided by contracts. AllocateInSubnetsAndIPRange, ConfigurePool and the scheduler-plugin layer are not yet part of this claim."),
- "C02": ("proof", "AllocateInSubnetWithKey re-keys exactly one entry keyed with the old key whose pool lists the subnet, the most recently updated one, and changes nothing else; ReserveIP re-keys exactly the entries of the old key. Both proved for all table states.",
-         "Plugin-level stickiness (filter/bind choosing the reserved IP) not yet under contract; histories not decided."),
- "C04": ("proof", "crdIpam.Release/ReleaseIPs/UpdateAttr act only on (ip,key) matches and leave every other entry unchanged; plugin-level Release (API release path): if the API server would report the pod alive with the stored uid, nothing in the store or at the provider changes; podRunning reports running for every pod the API server reports alive (cache staleness cannot override the API server); entries of other keys are never touched.",
-         "unbind (event path), resync pass, syncIP and ConfigurePool-vs-live-pod not yet under contract. Interleavings not decided."),
- "C03": ("proof", "parseReleasePolicy proved against the documented decision table (a pool annotation always means never; otherwise the release-policy annotation; default otherwise); podRunning/runningAndUidMatch: 'not running' is concluded only from not-found, uid mismatch or a finished phase and any other error counts as running; reserveIP never deletes an object and releaseIP frees only entries of the given key.",
-         "unbindDpPod/unbindNoneDpPod decision table and resync pass not yet under contract; histories not decided."),
- "C10": ("proof", "Plugin-level Release: whenever it frees an IP whose stored node is non-empty and a cloud provider is configured, the provider has acknowledged the unassign of that IP before (ghost ProvNode); cloudProviderAssignIP/UnAssignIP report success only for an acknowledged reply.",
-         "Cloud provider behaviour assumed (pkg/ipam/cloudprovider/zz_contracts_verif.go). allocateIP/unbind/resync ordering not yet under contract."),
- "C05": ("proof", "After every contracted crdIpam operation, on success and on failure, memory and the ghost Store agree on owner, policy, node and uid of every allocated IP and no free IP has an object (synced), relative to the assumed store wrappers with nondeterministic failure.",
-         "Crash points are not enumerated; ConfigurePool (reload) and the multi-IP allocation are not yet part of this claim."),
- "C06": ("proof", "AllocateInSubnet hands out only an IP that was free and whose pool lists the node subnet, and returns ErrNoEnoughIP only if no free IP's pool lists it.", "Filter side (NodeSubnetsByIPRanges, plugin filter) not yet under contract."),
- "C08": ("proof", "AllocateInSubnetsAndIPRange proved against the property statement for every list of well-formed requested ranges and every table state: on success exactly one IP per range, the i-th inside the i-th range (over the entry state), free and routable from the node subnet before the call, pairwise distinct, in request order, published under the key, every other entry untouched; on any failure the tables are unchanged and, with at most one failing API call, the store is unchanged (rollback loop invariant). The real walkIPRanges and closure bodies are inlined; its loops carry invariants given on the caller.",
-         "Client (API server) behaviour assumed as in pkg/ipam/client/.../zz_contracts_verif.go; net.IP.String modelled by uninterpreted functions with the stated axioms (4-byte text depends on the value only, ipv4val inverse). Plugin-level allocateIP (annotation order) not yet under contract."),
- "C09": ("proof", "Allocation contracts hand out only entries of the unallocated table; handleFIPAssign moves only a free IP to allocated and refuses an allocated one.", "ConfigurePool (reload) not yet under contract; watch timing not decided."),
+         "Methods: Release, ReleaseIPs, UpdateAttr, AllocateSpecificIP, AllocateInSubnet, AllocateInSubnetWithKey, AllocateInSubnetsAndIPRange, ReserveIP, handleFIPAssign/Unassign, ConfigurePool (table construction); "
+         "plugin layer: unbind, unbindDpPod/unbindNoneDpPod, releaseIP, one resync pass touch only entries of the pod's own key.",
+         "Store wrappers are verified against the ASSUMED behaviour of the generated client (create fails if the object exists). Interleavings at API-call granularity, histories and restarts are not decided by contracts. allocateIP (bind) is not part of this claim."),
+ "C02": ("proof", "AllocateInSubnetWithKey re-keys exactly one entry keyed with the old key whose pool lists the subnet, the most recently updated one, and changes nothing else; ReserveIP re-keys exactly the entries of the old key; First/ByKeyAndIPRanges report only (and, without ranges, all) entries of the key. Proved for all table states.",
+         "Plugin-level stickiness (bind choosing the reserved IP) not under contract; histories not decided."),
+ "C04": ("proof", "crdIpam.Release/ReleaseIPs/UpdateAttr act only on (ip,key) matches and leave every other entry unchanged; plugin-level Release (API path), unbind (event path) and one resync pass: if the API server would report the pod alive with the stored uid, nothing in the store or at the provider changes; an event of another incarnation (uid) of the pod name leaves the live pod's IP alone (defect repaired, fix: 1c2c469); "
+         "podRunning reports running for every pod the API server reports alive; entries of other keys are never touched.",
+         "syncIP and ConfigurePool-vs-live-pod not under contract. API-server truth is ghost state (PodExists/PodUIDOf/PodFinished) with assumed lister/client contracts. Interleavings not decided."),
+ "C03": ("proof", "parseReleasePolicy proved against the documented decision table; podRunning/runningAndUidMatch: 'not running' is concluded only from not-found, uid mismatch or a finished phase and any other error counts as running; reserveIP never deletes an object, releaseIP frees only entries of the given key; unbindDpPod/unbindNoneDpPod: policy never keeps the IP of deployment and statefulset pods.",
+         "allocateIP uid guard not under contract; histories not decided."),
+ "C10": ("proof", "Plugin-level Release, unbind and the resync pass: whenever they free an IP whose stored node is non-empty and a cloud provider is configured, the provider has acknowledged the unassign of that IP before (ghost ProvNode), and only that IP is unassigned; cloudProviderAssignIP/UnAssignIP report success only for an acknowledged reply.",
+         "Cloud provider behaviour assumed (pkg/ipam/cloudprovider/zz_contracts_verif.go). allocateIP assign ordering not under contract."),
+ "C05": ("proof", "After every contracted crdIpam operation, on success and on failure, memory and the ghost Store agree on owner, policy, node and uid of every allocated IP and no free IP has an object (synced), relative to the store wrappers with nondeterministic failure (fault budget); multi-IP allocation with at most one failing API call.",
+         "Crash points are not enumerated; ConfigurePool's reload-from-store part is only partially under contract."),
+ "C06": ("proof", "Bind side: AllocateInSubnet hands out only an IP that was free and whose pool lists the node subnet, and returns ErrNoEnoughIP only if no free IP's pool lists it; toFloatingIPInfo copies mask, gateway, VLAN and node subnets of the entry's pool. "
+         "Filter side: NodeSubnetsByIPRanges offers only subnets that can serve EVERY requested range list from a free IP (defect repaired, fix: c107243); getAvailableSubnet; getSubnet: every offered subnet reaches, for each requested range list in which the pod already holds an IP, an IP it holds there (defect repaired, fix: d0db67a).",
+         "Filter(): the per-node loop (node subnet lookup) and the agreement filter->bind across two calls are not under contract; completeness ('exactly those') is proved only inside ByKeyAndIPRanges/AllocateInSubnet, not for getSubnet. FormatKey/getPodCniArgs/getDpReplicas are assumed (named uninterpreted results)."),
+ "C08": ("proof", "AllocateInSubnetsAndIPRange proved against the property statement for every list of well-formed requested ranges and every table state: on success exactly one IP per range, the i-th inside the i-th range, free and routable from the node subnet before the call, pairwise distinct, in request order, published under the key, every other entry untouched; on any failure the tables are unchanged and, with at most one failing API call, the store is unchanged (rollback loop invariant). ByKeyAndIPRanges: one slot per range list, the reported IP lies in its own range list, and a slot is nil only if the key holds nothing in that list; getSubnet restricts the offer by every held IP.",
+         "Client (API server) behaviour assumed as in pkg/ipam/client/.../zz_contracts_verif.go; net.IP.String modelled by uninterpreted functions with the stated axioms. Plugin-level allocateIP (annotation order) not under contract."),
+ "C09": ("proof", "Allocation contracts hand out only entries of the unallocated table; handleFIPAssign moves only a free IP to allocated and refuses an allocated one; ConfigurePool builds disjoint tables whose free entries are blank.", "watch timing not decided."),
+ "C18": ("proof", "Zero-annotation safety sweep (plus surface invariants as typeinv/requires): for every function of the listed files (pkg/utils/nets/ip.go, pkg/ipam/floatingip/{floatingip.go,ipam_crd.go}, pkg/utils/page/page.go, pkg/ipam/schedulerplugin/util/utils.go, pkg/api/k8s/k8s.go) that is inside the supported subset, every generated no-panic obligation is discharged for all inputs satisfying the stated surface invariant: nil dereference, index/slice bounds, nil-map write, failed type assertion, division by zero, explicit panic, signed 64-bit overflow, callee preconditions, and termination of loops that carry a measure. "
+         "A decoder crash on a null nodeSubnets entry was found and repaired (fix: fed78c1).",
+         "Functions outside the subset are listed as UNDECIDED in the run output and under coverage.undecided_functions (channel sends in Collect/Describe, escaping locals in ConsumePort/ParsePodNetworkAnnotation). Other surfaces named by the property (HTTP handlers, CNI request parsing, policy sync) are not swept. Library callees are assumed not to panic on arguments satisfying their stated requires."),
 }
 
 def main():
